@@ -25,6 +25,13 @@ C->S : seeded meshes (empty, points only, one triangle, fans, tetrahedra,
        winding instance enumerated by TLC (S->C) and seeded meshes x integer
        matrices (C->S).  The sign of the determinant is decided exactly on the
        integer matrix (Mesh!ScaledWindingClause).
+       Link tables in conflict: one label on several rows (also with different
+       zero padding), and link file names that collide with uncompressed files
+       already present (a fragment named after its label with
+       --no-colon-suffix, a file "<label>:0").  Reading (Mesh.tla I7): earlier
+       files keep their bytes whatever happens; a refusal is accepted; a run
+       that reports success has written, for every label, one link file that
+       lists all fragments of all rows of that label.
 Everything observed is re-encoded (harness/mesh_driver.py) and judged by TLC
 (Trace_Mesh, oracle layer of Mesh.tla).
 """
@@ -225,6 +232,41 @@ def links_spec(ctx, via="inproc"):
             "existing": existing, "via": via}
 
 
+def conflict_links_spec(rng, via="inproc"):
+    """link tables that conflict with themselves (one label on several rows,
+    also written with different zero padding) or with the dataset (the link
+    file of a label carries the name of an UNCOMPRESSED file already present:
+    a fragment named after its label next to --no-colon-suffix, a file '<label>:0')"""
+    style = rng.choice(["repeat", "repeat", "collide", "collide", "both"])
+    nlab = rng.choice([1, 2, 3, 4])
+    labels = set()
+    while len(labels) < nlab:
+        labels.add(rng.choice([0, 1, 5, 7, 10, 255, 2 ** 32, rng.randint(0, 1000)]))
+    labels = list(labels)
+    pool = sorted({rand_name(rng, 2, 8) for _ in range(5)} | {str(l) for l in labels[:2]})
+    rows = [[lab, [rng.choice(pool) for _ in range(rng.choice([1, 1, 2, 3]))]] for lab in labels]
+    if style in ("repeat", "both"):
+        for _ in range(rng.choice([1, 1, 2])):
+            lab = rng.choice(labels)
+            rows.insert(rng.randint(0, len(rows)),
+                        [lab, [rng.choice(pool) for _ in range(rng.choice([0, 1, 1, 2]))]])
+    no_colon = rng.random() < 0.6
+    suffix = "" if no_colon else ":0"
+    existing, used = [], set()
+    if style in ("collide", "both"):
+        for lab in rng.sample(labels, rng.randint(1, len(labels))):
+            existing.append([str(lab) + suffix, False])
+            used.add(str(lab) + suffix)
+    link_names = {str(l) + suffix for l in labels}
+    for name in pool:
+        if rng.random() < 0.5 and name not in used and name not in link_names:
+            used.add(name)
+            existing.append([name, rng.random() < 0.4])
+    return {"rows": rows, "pad": [rng.choice([0, 0, 3]) for _ in rows], "no_colon": no_colon,
+            "info_mesh": rng.choice(["mesh", "mesh", "meshes", "m/sub"]), "existing": existing,
+            "via": via, "conflict": style}
+
+
 TITLE_CHARS = string.ascii_letters + string.digits + " .,;:_-+*/()[]{}<>=!?#%&'|~^$@\"\\\t"
 
 
@@ -324,7 +366,7 @@ def sig_of(mode, spec, source, case, clause, pos):
                    exc=case["saved"]["cls"])
     elif mode == "links":
         sig.update(no_colon=spec["no_colon"], nrows=len(spec["rows"]), rc=case["rc"], exc=case["exc"],
-                   via=spec.get("via"))
+                   via=spec.get("via"), conflict=spec.get("conflict", ""))
     return sig
 
 
@@ -366,7 +408,10 @@ def run(ctx):
         "its floating-point sign is certain); under such a down-scaling the products are rounded, "
         "'vertices moved accordingly' then means within 1e-9 result units of the exact position",
         "stored files may be gzip-compressed as <name>.gz (documented layout); link tables have one row "
-        "per label; --mesh-dir absent while the info holds a non-default key is not judged",
+        "per label except in the 'random-conflict' cases (repeated labels, link names colliding with "
+        "uncompressed files already present: refusal accepted, earlier files untouched, success lists "
+        "every fragment of every row; collisions with gzip-compressed files of the same logical name are "
+        "not generated: the layout itself is ambiguous there); --mesh-dir absent while the info holds a non-default key is not judged",
         "VTK array entries must be decimal numbers (finite inputs only); oracle:VtkMesh only on integer "
         "vertices",
     ]
@@ -399,6 +444,12 @@ def run(ctx):
             todo.append(("affine", dict(spec, sc=sc, mb=0, vdtype=("float32", "float64")[k % 2]), "gen-scaled"))
     for k in range(n(240, 6000)):
         todo.append(("affine", scaled_affine_spec(rng2, UNIT_CHANGES[k % 4]), "random-scaled"))
+    # link tables in conflict with themselves / with files already present
+    rng3 = random.Random(ctx.seed * 1000003 + 17 + 2 * 7919)
+    for _ in range(n(80, 1500)):
+        todo.append(("links", conflict_links_spec(rng3), "random-conflict"))
+    for _ in range(n(2, 10)):
+        todo.append(("links", conflict_links_spec(rng3, via="subproc"), "random-conflict"))
 
     cases = []
     for serial, (mode, spec, source) in enumerate(todo):
